@@ -143,8 +143,10 @@ def check_total(P, R, f, unq, seen, depth=0):
             if nm in TOTAL_CALLS or nm in unq:
                 if nm in unq and any(k.arg == 'errors' and const(k.value) == 'strict' for k in c.keywords):
                     ok, det = False, "unquote(errors='strict') raises UnicodeDecodeError on a stray escape"
-            elif nm in local_funcs or nm in ('add', '_append', 'append', 'setitem'):
+            elif nm in local_funcs or nm in ('add', 'append', 'setitem'):
                 pass
+            elif (T.resolved_callee(f, c) or '').split('.')[-1] in TOTAL_ATTRS and T.resolved_callee(f, c) != nm:
+                pass   # local alias of a total method (e.g. `_append = container.append`)
             elif nm in params:
                 pass
             else:
